@@ -30,11 +30,11 @@ class Verdict:
             if self.status != "refuted":
                 self.status = "refuted"
                 self.prims = prims
-                self.detail = detail
+                self.detail = detail() if callable(detail) else str(detail)
         elif status == "unknown":
             if self.status == "discharged":
                 self.status = "unknown"
-                self.detail = detail
+                self.detail = detail() if callable(detail) else str(detail)
 
     def to_json(self):
         return dict(name=self.name, status=self.status, paths=self.paths, seconds=round(self.seconds, 4),
@@ -197,17 +197,17 @@ def verify_case(case, repo=None, summaries_lib=None, seed=0, scope=None):
                             cond = _Or(case.known[label]["carve"](inp), cond)
                     except Exception as ex:
                         st, m, dt = _check(solver, False, case.timeout_ms)
-                        res.v(name).add(st, dt, prims_of(m), f"postcondition not evaluable on result "
-                                                             f"{_short(p.value)}: {type(ex).__name__}: {ex}")
+                        res.v(name).add(st, dt, prims_of(m), (lambda _v=p.value, _ex=ex: f"postcondition not evaluable on result "
+                                                             f"{_short(_v)}: {type(_ex).__name__}: {_ex}"))
                         continue
                     st, m, dt = _check(solver, _tobool(cond), case.timeout_ms)
                     res.v(name).add(st, dt, prims_of(m, _neg(_tobool(cond)) if st == "sat" and not isinstance(cond, bool)
-                                                     else None), f"returned {_short(p.value)}")
+                                                     else None), (lambda _v=p.value: f"returned {_short(_v)}"))
                 for exc, w in raises.items():
                     cond = _tobool(w(inp))
                     st, m, dt = _check(solver, _neg(cond), case.timeout_ms)
-                    res.v("raises:" + exc).add(st, dt, prims_of(m), f"returned {_short(p.value)} although {exc} "
-                                                                   "is specified")
+                    res.v("raises:" + exc).add(st, dt, prims_of(m), (lambda _v=p.value, _e=exc: f"returned {_short(_v)} although {_e} "
+                                                                   "is specified"))
             elif p.kind == "raise":
                 cls = p.value
                 seen_raise.add(cls)
@@ -256,9 +256,44 @@ def _neg(c):
     return z3.Not(c)
 
 
+class _Lazy:
+    """repr computed only if the text is actually used (z3 pretty-printing of big terms is slow)."""
+
+    def __init__(self, v):
+        self.v = v
+
+    def __str__(self):
+        return _describe(self.v, 0)[:300]
+
+    __repr__ = __str__
+
+    def __format__(self, spec):
+        return str(self)
+
+
+def _describe(v, depth):
+    if depth > 2:
+        return "..."
+    if isinstance(v, z3.ExprRef):
+        s = v.sexpr()
+        return s if len(s) < 80 else s[:80] + "..."
+    if isinstance(v, Obj):
+        items = []
+        for k, x in list(v.attrs.items())[:8]:
+            if not k.startswith("$"):
+                items.append(f"{k}={_describe(x, depth + 1)}")
+        return f"<{v.cls.name} " + ", ".join(items) + ">"
+    if isinstance(v, (list, tuple)):
+        return "[" + ", ".join(_describe(x, depth + 1) for x in list(v)[:6]) + "]"
+    try:
+        s = repr(v)
+    except Exception:
+        s = "<unprintable>"
+    return s if len(s) < 120 else s[:120] + "..."
+
+
 def _short(v):
-    s = repr(v)
-    return s if len(s) < 200 else s[:200] + "..."
+    return _Lazy(v)
 
 
 def run_concrete(case, repo, summaries_lib, prims):
